@@ -144,3 +144,10 @@ def _region(unit):
             "assumptions": ["mmap/munmap model: each call may fail independently; a successful mmap returns a fresh object"]}
 
 JOBS += [_region("alloc"), _region("free")]
+
+JOBS.append({"name": "scrypt_wrapper", "props": ["C05", "C04", "C07", "C01"], "functions": ["crypt_scrypt_rn", "verify_salt", "check_salt_char"],
+             "harness": "harness/scrypt_wrap.c", "defs": [], "verif_src": ["models/strings.c"],
+             "loops": [{"function": "verify_salt", "anchor": "for (size_t i = 3 + 1 + 5 * 2; i < set_size; i++)",
+                        "invariant": "i >= 14 && (set_size < 14 ? i == 14 : (i <= set_size && i <= g_fb))", "decreases": "set_size - i"}],
+             "unwind": 4, "mem_gb": 4, "timeout": 600, "no_native": True,
+             "assumptions": ["crypt_yescrypt_rn replaced by a recording stub; its contract is enforced by yescrypt_wrapper"]})
